@@ -1,0 +1,29 @@
+//go:build verif
+
+package internal
+
+import (
+	"sync"
+	"time"
+)
+
+var (
+	verifTimerMu   sync.Mutex
+	verifTimerHook func(t *EventTimer, timeout time.Duration)
+)
+
+// VerifSetTimerHook installs a callback invoked on every EventTimer.Reset (verification builds only).
+func VerifSetTimerHook(f func(t *EventTimer, timeout time.Duration)) {
+	verifTimerMu.Lock()
+	verifTimerHook = f
+	verifTimerMu.Unlock()
+}
+
+func verifOnReset(t *EventTimer, timeout time.Duration) {
+	verifTimerMu.Lock()
+	f := verifTimerHook
+	verifTimerMu.Unlock()
+	if f != nil {
+		f(t, timeout)
+	}
+}
